@@ -60,6 +60,8 @@ ASSUMPTIONS = [
     "a stuck waiting_for_ball after ball_missing handling carries the known-finding signature only if a mechanical-eject "
     "device exists or a replacement request is parked at a device nothing feeds; otherwise "
     "'..._after_lost_ball_path_restore'",
+    "with a confirm switch a lost ball is reported by the target (balldevice_<target>_ball_missing); the delivery clause "
+    "is not evaluated for a mechanical plunger once MPF took a ball for one that skipped it",
     "zero_time_livelock: 100000 loop iterations without the virtual clock advancing (deterministic, not wall clock)",
     "same physical envelope as C04 (no diverters, one ball per pulse, no jam switches, entrance devices without "
     "undetectable faults, bounce on overflow)",
